@@ -64,7 +64,7 @@ CLAIM = {
     'note': 'Trusted: TLC; harness projection; hash orders of the real code are sampled, the model covers all; exact verdicts '
             'only for axis-aligned rectangular references and lattice angles - for other references the predicate value itself '
             'is taken from the library on the face in isolation (independence, algebra and mesh construction are still judged). '
-            'Degenerate faces, out-of-range or repeated start indices are not generated. An empty selection cannot be built '
+            'Out-of-range start indices are not generated; a zero-area face has no normal and satisfies no facing criterion; a start list may name a face more than once. An empty selection cannot be built '
             'into a Mesh (no error channel): failing there is allowed. One defect (D17, memo keyed by vertex held a '
             'face-dependent verdict) was found and repaired (fixes/17_near_mesh_memo.diff); the L2 model transcribes the repaired '
             'algorithm.',
@@ -127,6 +127,9 @@ def _start(rnd, nf):
     if k < 0.5:
         return {'kind': 'all', 'idx': []}
     idx = [f for f in range(nf) if rnd.random() < rnd.choice((0.2, 0.5, 0.8))]
+    if idx and rnd.random() < 0.4:
+        # a list that names some faces more than once (concatenated overlapping lists): still that set of faces
+        idx += [rnd.choice(idx) for _k in range(rnd.randint(1, max(1, nf - len(idx) + 1)))]
     rnd.shuffle(idx)
     return {'kind': 'idx', 'idx': idx}
 
@@ -185,6 +188,13 @@ def gen_c14_lattice(rnd, tier):
     out = []
     for _ in range(n):
         vpos, faces = _lattice_scene(rnd)
+        if rnd.random() < 0.2:
+            # one zero-area face (three collinear vertices of its own): it has no normal, so it faces nothing
+            k = len(vpos)
+            p0 = [rnd.randint(0, 4), rnd.randint(0, 4), rnd.randint(0, 3)]
+            d = rnd.choice(([1, 0, 0], [0, 1, 0], [1, 1, 0], [0, 1, 1]))
+            vpos = vpos + [p0, [p0[a] + d[a] for a in range(3)], [p0[a] + 2 * d[a] for a in range(3)]]
+            faces = faces + [[k, k + 1, k + 2]]
         out.append({'op': 'reset'})
         out.append(_root(rnd, 'lattice', vpos, faces, rnd.choice((0, -10, -3, 4, 7, -20, 12))))
         prev = None
